@@ -208,33 +208,60 @@ BagObl(px, b, den, bind, natural) ==
                 Sum([i \in 1..Len(vs) |-> Mul(cnt(vs[i]), <<"ref", bind[vs[i]].key, "mass">>)])),
          \* ... and of the masses the object reports per species
          Approx("sum.mass=sum(comp)", Obs(px \o "sum.mass"),
-                Sum([i \in 1..Len(vs) |-> Mul(cnt(vs[i]), Obs(px \o "comp." \o vs[i] \o ".mass"))])) >>
+                Sum([i \in 1..Len(vs) |-> Mul(cnt(vs[i]), Obs(px \o "comp." \o vs[i] \o ".mass"))])),
+         \* the same totals where the object reports them outside the tables ("Total mass", "Total number" of
+         \* print(); the mass a Material uses for this substance) and the fractions that are derived from them
+         Approx("total.mass", Obs(px \o "total.mass"),
+                Sum([i \in 1..Len(vs) |-> Mul(cnt(vs[i]), <<"ref", bind[vs[i]].key, "mass">>)])),
+         Exact("total.number", Obs(px \o "total.number"), Q(ISumSeq([i \in 1..Len(vs) |-> b[vs[i]]]), den)),
+         Approx("sum.x", Obs(px \o "sum.x"), Q(100, 1)), Approx("sum.X", Obs(px \o "sum.X"), Q(100, 1)) >>
 
+(***************************************************************************)
+(* op: what is done with the parsed substance A, all in ONE process        *)
+(*   none                                                                  *)
+(*   add      R = A + Substance(toks2); then A is observed again (A2) and  *)
+(*            toks2 is parsed again (B): operands are not altered          *)
+(*   mul      R = A * n; A observed again (A2)                             *)
+(*   addin    A.add(v, n) in place, observed as R; afterwards toks2 (B)    *)
+(*            and toks itself (C) are parsed afresh: what was done to one  *)
+(*            object does not reach formulas parsed later                  *)
+(*   perturb  every quantity A reports is converted in place to another    *)
+(*            unit by the caller; A observed again as R: the results do    *)
+(*            not depend on the unit a reported quantity was converted to  *)
+(***************************************************************************)
 FormulaRec(it) ==
   LET ast == ParseIdeal(it.toks) IN
   IF ~Parses(it.toks) THEN [id |-> it.id, kind |-> "formula", cls |-> "ill", toks |-> it.toks]
   ELSE
   LET bag  == Expand(ast)
-      ast2 == IF it.op = "add" THEN ParseIdeal(it.toks2) ELSE <<>>
-      ok2  == it.op # "add" \/ Parses(it.toks2)
-      all  == IF it.op = "add" /\ ok2 THEN BAdd(bag, Expand(ast2)) ELSE bag
+      two  == it.op \in {"add", "addin"}
+      ast2 == IF two THEN ParseIdeal(it.toks2) ELSE <<>>
+      ok2  == ~two \/ Parses(it.toks2)
+      bag2 == IF two /\ ok2 THEN Expand(ast2) ELSE BZero
+      bagR == CASE it.op = "add"   -> BAdd(bag, bag2)
+                [] it.op = "addin" -> BAdd(bag, BScale(it.n[1], BUnit(it.v)))
+                [] OTHER -> bag
+      all  == BAdd(bagR, bag2)
       used == {v \in Vars : all[v] > 0}
       badsp == \E v \in used : ~SpValid(it.bind[v])
       unsp  == ~badsp /\ \E v \in used : SpUnspecified(it.bind[v], it.natural)
       cls  == IF badsp \/ ~ok2 THEN "invalid"
-              ELSE IF Unspecified(ast) \/ (it.op = "add" /\ Unspecified(ast2)) THEN "unspecified"
+              ELSE IF Unspecified(ast) \/ (two /\ Unspecified(ast2)) THEN "unspecified"
               ELSE IF unsp THEN "unspecified:abundance" ELSE "wellformed"
       m    == Mach(ast)
+      O(px, b, den) == BagObl(px, b, den, it.bind, it.natural)
   IN  [id |-> it.id, kind |-> "formula", cls |-> cls, toks |-> it.toks, natural |-> it.natural, op |-> it.op,
-       tags |-> Features(ast) \cup (IF it.op = "add" /\ ok2 THEN DevTags(ast2) ELSE {})
+       tags |-> Features(ast) \cup (IF two /\ ok2 THEN DevTags(ast2) ELSE {}) \cup {"op_" \o it.op}
                 \cup (IF badsp THEN {} ELSE UNION {SpFeatures(it.bind[v], it.natural) : v \in used}),
        bag |-> bag, pre |-> Pre(ast), merr |-> m.err, mbag |-> m.bag,
        lemmas |-> Lemmas(ast), refines |-> MachineOK(ast),
        obl |-> IF cls # "wellformed" THEN <<>>
-               ELSE BagObl("A.", bag, 1, it.bind, it.natural)
-                    \o (IF it.op = "add" THEN BagObl("R.", all, 1, it.bind, it.natural)
-                        ELSE IF it.op = "mul" THEN BagObl("R.", BScale(it.n[1], bag), it.n[2], it.bind, it.natural)
-                        ELSE <<>>)]
+               ELSE O("A.", bag, 1)
+                    \o (CASE it.op = "add"     -> O("R.", bagR, 1) \o O("A2.", bag, 1) \o O("B.", bag2, 1)
+                           [] it.op = "mul"     -> O("R.", BScale(it.n[1], bag), it.n[2]) \o O("A2.", bag, 1)
+                           [] it.op = "addin"   -> O("R.", bagR, 1) \o O("B.", bag2, 1) \o O("C.", bag, 1)
+                           [] it.op = "perturb" -> O("R.", bag, 1)
+                           [] OTHER -> <<>>)]
 
 FileRec(it) == IF it.kind = "species" THEN SpeciesRec(it) ELSE FormulaRec(it)
 FileOK == idx > 0 =>
